@@ -701,6 +701,16 @@ func (gen *Generator) GenerateCallBySymbol(sym *SexpSymbol, args []Sexp, orig Se
 	case "macexpand":
 		return gen.GenerateMacexpand(args)
 	case "syntaxQuote":
+		if len(args) == 1 {
+			if list, isPair := args[0].(*SexpPair); isPair {
+				if head, isSym := list.Head.(*SexpSymbol); isSym && head.name == "unquote-splicing" {
+					// ^~@x: the elements of x would be left on the
+					// data stack, as many as x has, with nothing
+					// to collect them.
+					return fmt.Errorf("unquote-splicing (~@) needs an enclosing list or array to splice into")
+				}
+			}
+		}
 		return gen.GenerateSyntaxQuote(args)
 	case "include":
 		return gen.GenerateInclude(args)
@@ -1576,8 +1586,10 @@ func (gen *Generator) GenerateNewScope(expressions []Sexp) error {
 	oldtail := gen.Tail
 	gen.Tail = false
 	if size == 0 {
+		// like an empty (begin): the value nil
+		gen.AddInstruction(PushInstr{SexpNull})
+		gen.Tail = oldtail
 		return nil
-		//return NoExpressionsFound
 	}
 
 	gen.AddInstruction(AddScopeInstr{Name: "newScope"})
